@@ -80,8 +80,15 @@ type HarnessResult struct {
 	Funcs        map[string]int // encoded functions -> instructions executed
 	CrossDiff    []string
 	ForkSites    map[string]int64
+	Notes        map[string]int
 	Reports      map[string][]int64
 	mu           sync.Mutex
+}
+
+func (r *HarnessResult) note(msg string) {
+	r.mu.Lock()
+	defer r.mu.Unlock()
+	r.Notes[msg]++
 }
 
 func (r *HarnessResult) incon(msg string) {
@@ -279,13 +286,13 @@ func (p *Path) branch(c *Term) bool {
 		return false
 	}
 	if r != "sat" {
-		p.ex.res.incon(fmt.Sprintf("feasibility query %s (treated as feasible)", r))
+		p.ex.res.note(fmt.Sprintf("feasibility query %s (branch kept: sound over-approximation)", r))
 	}
 	nc := p.not(c)
 	r2, _ := p.query(false, nc)
 	if r2 != "unsat" {
 		if r2 != "sat" {
-			p.ex.res.incon(fmt.Sprintf("feasibility query %s (treated as feasible)", r2))
+			p.ex.res.note(fmt.Sprintf("feasibility query %s (branch kept: sound over-approximation)", r2))
 		}
 		alt := append(append([]int(nil), p.trail...), 0)
 		p.ex.push(alt)
@@ -528,7 +535,7 @@ func runHarness(in *Interp, cfg *HarnessCfg, workers int) *HarnessResult {
 		cfg.MaxSteps = 5000000
 	}
 	res := &HarnessResult{Cfg: cfg, Ends: map[string]int64{}, AssertsProved: map[string]int64{}, AssertsReached: map[string]int64{},
-		Covers: map[string]bool{}, CoverSeen: map[string]bool{}, Funcs: map[string]int{}, ForkSites: map[string]int64{}}
+		Covers: map[string]bool{}, CoverSeen: map[string]bool{}, Funcs: map[string]int{}, ForkSites: map[string]int64{}, Notes: map[string]int{}}
 	ex := &Explorer{in: in, cfg: cfg, res: res}
 	ex.qcond = sync.NewCond(&ex.qmu)
 	ex.queue = [][]int{{}}
